@@ -9,6 +9,7 @@ Rewrite rules (each application is counted and reported):
   R6 format!(...) -> String::new()                                     (message text is not part of any property)
   R7 (a..b).contains(&x) -> (a <= x && x < b)                          (integer ranges only)
   R8 `&X[i]` / `X[i]` through a one-line `impl Index` whose body is `&self.0[index]` -> `X.0[i]`  (body text is checked)
+  R10 `&s[a..b]` on a slice -> vstd::slice::slice_subrange(s, a, b)   (same value; Verus has no range-index syntax)
   R9 `..` rest patterns / field shorthands are kept; `as usize`/`as i32` casts are kept (Verus checks them)
 Anything else unsupported => Undecided (exit 2), never an alarm."""
 import os, re, json, importlib.util
@@ -58,6 +59,9 @@ def _rewrite(body, rules, counts):
         body, n = re.subn(r"\(\s*([^()]+?)\s*\.\.\s*\(([^()]+(?:\([^()]*\)[^()]*)*)\)\s*\)\s*\.contains\(\s*&\s*(\w+)\s*\)",
                           r"((\1) <= \3 && \3 < (\2))", body)
         cnt("R7", n)
+    if "R10" in rules:
+        body, n = re.subn(r"&(\w+)\[(\w+)\.\.(\w+)\]", r"slice_subrange(\1, \2, \3)", body)
+        cnt("R10", n)
     if "R3" in rules:
         body, n = re.subn(r"\bblend_fn\(", "blend_fn.call(", body)
         cnt("R3", n)
@@ -121,13 +125,17 @@ def _splice_fn(src_text, f, counts):
         (_, open_i, _) = lp[k - 1]
         body = body[:open_i] + "\n" + want[k].rstrip() + "\n" + body[open_i:]
     for (anchor, text, *where) in f.get("hints", []):
-        n = body.count(anchor)
-        if n != 1:
-            raise Undecided("lost anchor: hint anchor %r occurs %d times in %s" % (anchor, n, f["name"]))
+        # anchor = a short substring identifying ONE line of the body; the hint goes before / after that line
+        lines = body.split("\n")
+        hits = [i for i, l in enumerate(lines) if anchor in l]
+        if len(hits) != 1:
+            raise Undecided("lost anchor: hint anchor %r occurs on %d lines in %s" % (anchor, len(hits), f["name"]))
+        i = hits[0]
         if where and where[0] == "before":
-            body = body.replace(anchor, text + "\n" + anchor)
+            lines.insert(i, text)
         else:
-            body = body.replace(anchor, anchor + "\n" + text)
+            lines.insert(i + 1, text)
+        body = "\n".join(lines)
     clauses = ""
     if f.get("requires"):
         clauses += "\n    requires\n" + f["requires"].rstrip().rstrip(",") + ","
@@ -142,8 +150,31 @@ def _splice_fn(src_text, f, counts):
 def _splice_struct(src_text, s, counts):
     st = rsx.find_struct(src_text, s["name"])
     if s.get("keep") is None:
-        st = re.sub(r"^pub(\([^)]*\))?\s+", "pub ", st)
-        return (s.get("attrs", "") + st + "\n")
+        m = rsx.mask(st)
+        if "{" in m:
+            s = dict(s)
+            s["keep"] = [n for (_, n, _) in rsx.struct_fields(st)]   # all fields, made pub below
+        else:
+            # tuple struct: make every field pub
+            o = m.index("(", re.search(r"struct\s+\w+", m).end())
+            c = rsx.match_brace(m, o, "(", ")")
+            inner = st[o + 1:c]
+            parts, depth, cur = [], 0, ""
+            for ch in inner:
+                if ch in "<([":
+                    depth += 1
+                elif ch in ">)]":
+                    depth -= 1
+                if ch == "," and depth == 0:
+                    parts.append(cur)
+                    cur = ""
+                else:
+                    cur += ch
+            if cur.strip():
+                parts.append(cur)
+            parts = ["pub " + re.sub(r"^pub(\([^)]*\))?\s+", "", x.strip()) for x in parts]
+            name = re.search(r"struct\s+(\w+)", st).group(1)
+            return s.get("attrs", "") + "pub struct %s(%s);\n" % (name, ", ".join(parts))
     fields = rsx.struct_fields(st)
     keep = s["keep"]
     names = [n for (_, n, _) in fields]
@@ -153,7 +184,11 @@ def _splice_struct(src_text, s, counts):
     dropped = [n for n in names if n not in keep]
     counts["R5"] = counts.get("R5", 0) + len(dropped)
     body = "".join("    pub %s: %s,\n" % (n, t) for (_, n, t) in fields if n in keep)
-    hdr = re.match(r"(?:pub(?:\([^)]*\))?\s+)?(struct\s+\w+[^{]*)\{", st, re.S).group(1)
+    for (a, b) in s.get("rewrites", []):
+        if a not in body:
+            raise Undecided("lost anchor in struct %s: %r" % (s["name"], a))
+        body = body.replace(a, b)
+    hdr = s.get("header") or re.match(r"(?:pub(?:\([^)]*\))?\s+)?(struct\s+\w+[^{]*)\{", st, re.S).group(1)
     return s.get("attrs", "") + "pub " + hdr + "{\n" + body + "}\n"
 
 
@@ -161,7 +196,7 @@ def build_unit(scratch, name, unit):
     counts = {}
     parts = ["// GENERATED on every run by /verif/lib/verus_engine.py from the working tree – do not edit\n",
              "#![allow(unused_imports, dead_code, unused_variables, unused_mut, unused_parens)]\n",
-             "use vstd::prelude::*;\n", "verus! {\n"]
+             "use vstd::prelude::*;\n", "use vstd::slice::slice_subrange;\n", "verus! {\n"]
     prelude = open(os.path.join(VERIF, "verus", "prelude.rs")).read()
     for sec in unit.get("prelude_sections", []):
         sm = re.search(r"//\s*@section %s\n(.*?)//\s*@end" % re.escape(sec), prelude, re.S)
@@ -225,7 +260,7 @@ def classify(unit_name, res, fn_name):
         return "undecided", "verus produced no JSON: %s" % diag[-600:], 0.0, None
     vr = js.get("verification-results", {})
     if vr.get("encountered-vir-error"):
-        return "undecided", "verus front-end error (unsupported construct / type error): %s" % diag[:1500], 0.0, None
+        return "undecided", "verus front-end error (unsupported construct / type error): %s" % diag[:500], 0.0, None
     fb = {}
     try:
         for mod in js["times-ms"]["smt"]["smt-run-module-times"]:
@@ -243,7 +278,7 @@ def classify(unit_name, res, fn_name):
     ent = fb.get(fn_name)
     secs = (ent or {}).get("time-micros", 0) / 1e6
     if not vr.get("success") and not fb and not errs:
-        return "undecided", "verus failed before verification: %s" % diag[:1500], 0.0, None
+        return "undecided", "verus failed before verification: %s" % diag[:500], 0.0, None
     if errs:
         sem = [e for e in errs if _SEMANTIC.search(e[0])]
         if sem and len(sem) == len(errs):
